@@ -10,6 +10,8 @@ pub use king::king_attacks;
 pub use knights::knight_attacks;
 pub use magics::bishop_attacks;
 pub use magics::rook_attacks;
+#[cfg(jgilchrist_tcheran_verif)]
+pub use magics::verif_index;
 pub use pawns::pawn_attacks;
 
 pub fn init() {
